@@ -60,7 +60,7 @@ let run_a (live : bool) (ops : string list) : string =
     | ["X"] -> do_op OLose
     | ["L"; p] -> do_op (OLocal (n_of_dec p))
     | ["S"] -> do_op OSnap
-    | ["R"; _] -> restarted := true; do_op ORestart
+    | ["R"; _] | ["Y"; _] -> restarted := true; do_op ORestart
     | "W" :: c :: rest ->
       let ci = int_of_string c in
       if ci > !maxc then maxc := ci;
